@@ -419,7 +419,14 @@ def build(tier, seed):
         def shared_inv(v):
             first = v.list_of_wires.items[0]
             taken = TH.TAKE(seq(first), v._i1)
-            return And(nodup(v.shared), forall_label(lambda x: mem(v.shared, x) == And(TH.MEM(taken, x), mem(v.intersecting_wires, x)), first))
+            a_, b_ = z3.Ints("sh_a sh_b")
+            sh, fs = seq(v.shared), seq(first)
+            return And(nodup(v.shared), forall_label(lambda x: mem(v.shared, x) == And(TH.MEM(taken, x), mem(v.intersecting_wires, x)), first),
+                       # order: shared is a subsequence of the first object (positions in `first` strictly increase, all below i)
+                       forall_pos(v.shared, lambda k: And(TH.MEM(fs, at(v.shared, k)), TH.IDX(fs, at(v.shared, k)) < v._i1)),
+                       z3.ForAll([a_, b_], z3.Implies(z3.And(0 <= a_, a_ < b_, b_ < TH.LEN(sh)),
+                                                      TH.IDX(fs, TH.AT(sh, a_)) < TH.IDX(fs, TH.AT(sh, b_))),
+                                 patterns=[z3.MultiPattern(TH.AT(sh, a_), TH.AT(sh, b_))]))
         contracts.append(FnContract(w, "Wires.shared_wires", [
             Case(f"{k}-wires-objects", {"list_of_wires": LW}, loops={1: LoopSpec(inv=shared_inv, types={"shared": LLIST})},
                  requires=lambda v: And(*[nodup(x) for x in ws(v)]),
